@@ -147,20 +147,22 @@ def narrow_histories(depth):
 
 
 def run_session_case(args):
-    kind, events = args
+    kind, events = args[:2]
+    one_object = len(args) > 2 and args[2]
     fsdirs = H.materialize()
     s0 = H.make_initial(kind)
-    steps = H.run_session(s0, events, fsdirs)
+    steps = H.run_session(s0, events, fsdirs, one_object=one_object)
     vs = []
     before = s0
     n = 0
     for ev, new, res in steps:
         n += 1
-        sig0 = {'event': ev[0], 'actor_kind': s0.users[ev[1]]['kind'], 'mode': 'long-lived-repository'}
+        sig0 = {'event': ev[0], 'actor_kind': s0.users[ev[1]]['kind'],
+                'mode': 'one-repository-object-for-all-users' if one_object else 'long-lived-repository'}
         if res.exc is not None:
             vs.append((dict(sig0, what='command-failed', exc=type(res.exc).__name__), {'hist': new.hist, 'err': repr(res.exc)[:300]}))
         for p in transition_problems(before, res, ev) + state_problems(new):
-            vs.append((dict(sig0, what=p['what']), {'hist': new.hist, 'problem': p, 'mode': 'session'}))
+            vs.append((dict(sig0, what=p['what']), {'hist': new.hist, 'problem': p, 'mode': 'session', 'one_object': bool(one_object)}))
         before = new
     return n, vs, [list(map(str, e)) for e in events]
 
@@ -173,7 +175,7 @@ def replay(case):
     v = []
     if case.get('mode') == 'session':
         before = s
-        for ev, new, res in H.run_session(s, hist, fsdirs):
+        for ev, new, res in H.run_session(s, hist, fsdirs, one_object=bool(case.get('one_object'))):
             v += [p['what'] for p in transition_problems(before, res, ev) + state_problems(new)]
             before = new
     else:
@@ -215,6 +217,8 @@ def main():
                 sess.append((kind, hst))
         for hst in narrow_histories(5 if t == 'quick' else 6):
             sess.append(('enc', hst))
+        # the same histories on ONE Repository object that is unlocked again whenever the actor changes
+        sess += [(k_, h_, True) for k_, h_ in list(sess) if k_ == 'enc' and len({e[1] for e in h_}) > 1]
         sess = common.shuffled(sess, 'sess')
         ncmd = 0
         for n, vs, evs in common.pmap(run_session_case, sess, chunksize=8, ordered=False):
